@@ -1,8 +1,37 @@
 package main
 
-import "fmt"
+import (
+	"fmt"
+	"os"
+)
 
-// cmdSelftest validates the machinery itself (DESIGN.md §8); extended as the engine grows.
+// cmdSelftest validates the machinery itself (DESIGN.md §8): the lemmas behind the provenance fast paths are
+// re-decided by the solver on the Go models.
 func cmdSelftest(args []string) {
-	fmt.Println("symgo selftest: ok")
+	res := runOne(RunSpec{Entry: "vrfH_SelfEscape", Unwind: 12, Depth: 40, Timeout: 120, Prop: "SELFTEST"}, false)
+	bad := 0
+	if res.Unsupported != "" {
+		fmt.Println("selftest: unsupported:", res.Unsupported)
+		bad++
+	}
+	n := 0
+	for _, o := range res.Obls {
+		if o.Kind == "cover" {
+			if o.Result != "sat" {
+				fmt.Printf("selftest: cover %s: %s\n", o.ID, o.Result)
+				bad++
+			}
+			continue
+		}
+		n++
+		if o.Result != "unsat" {
+			fmt.Printf("selftest: [%s] %s: %s\n", o.Kind, o.ID, o.Result)
+			bad++
+		}
+	}
+	if bad > 0 || n == 0 {
+		fmt.Println("symgo selftest: FAILED")
+		os.Exit(1)
+	}
+	fmt.Printf("symgo selftest: ok (%d lemmas discharged in %.1fs)\n", n, res.SolveS+res.ExecS)
 }
